@@ -21,9 +21,20 @@
 (*    observation), invalid (matches a pattern but denotes nothing: Feb    *)
 (*    30, offset of 24 h or more), or silent (depends on the current time, *)
 (*    or the documentation does not fix a meaning).  "soft" readings       *)
-(*    (minute 60, hour 24, a contradicting weekday, more than nine         *)
-(*    fractional digits) admit an error as well as the arithmetic reading. *)
-(*  * UTC offsets are valid iff |offset| < 24 h.                           *)
+(*    (minute 60, hour 24, second 60, a contradicting weekday, more than   *)
+(*    nine fractional digits) admit an error as well as the arithmetic     *)
+(*    reading (second 60 = the first second of the next minute: the        *)
+(*    calendar of the property has no leap seconds).                       *)
+(*  * A literal never denotes an instant outside what its written fields   *)
+(*    allow.  A reading that writes a time but no date ("today" patterns)  *)
+(*    or only a part of a date (year and ISO week, month and day without a *)
+(*    year) is "partial": it carries the written fields as constraints     *)
+(*    (PC); admissible is an instant that has these fields at the written  *)
+(*    offset - for an incomplete date also an error - and, when the clock  *)
+(*    of the context is known, a time-only literal denotes that time on    *)
+(*    the clock's day at the written offset (TodayInstant).                *)
+(*  * UTC offsets are valid iff |offset| < 24 h; both spellings (+hh:mm,   *)
+(*    +hhmm) have minutes below 60.                                        *)
 (***************************************************************************)
 EXTENDS BigNum, Lexer, TzNames, DateWords, FiniteSets
 
@@ -57,6 +68,11 @@ MonthOfFrom(y, rest, m) == IF rest < DaysInMonth(y, m) THEN <<m, rest + 1>> ELSE
 CivilFromDays(days) == LET y == YearOf(days)
                            md == MonthOfFrom(y, days - DaysBeforeYear(y), 1)
                        IN <<y, md[1], md[2]>>
+
+\* ISO 8601 week dates: a week belongs to the year its Thursday lies in; week 1 holds the year's first Thursday
+IsoThursday(days) == days - WeekdayOf(days) + 4
+IsoYearOf(days) == YearOf(IsoThursday(days))
+IsoWeekOf(days) == ((IsoThursday(days) - DaysBeforeYear(IsoYearOf(days))) \div 7) + 1
 
 -----------------------------------------------------------------------------
 (* instants and durations *)
@@ -153,7 +169,7 @@ Patterns == <<
 
 -----------------------------------------------------------------------------
 (* fields collected while a pattern reads a literal *)
-F0 == [y |-> 0, hy |-> FALSE, mo |-> 0, dd |-> 0, ord |-> 0, wd |-> 0, h12 |-> -1, pm |-> -1, mi |-> -1,
+F0 == [y |-> 0, hy |-> FALSE, mo |-> 0, dd |-> 0, ord |-> 0, wk |-> 0, wd |-> 0, h12 |-> -1, pm |-> -1, mi |-> -1,
        s |-> -1, ns |-> 0, nsx |-> FALSE, ok |-> 0, off |-> 0, tz |-> <<>>, unspec |-> FALSE, soft |-> FALSE]
 
 DTok(toks, i) == IF i >= 1 /\ i <= Len(toks) THEN toks[i] ELSE [d |-> "eof"]
@@ -193,8 +209,8 @@ Elem(w, toks, i, f) ==
          IF IsNumTok(t) /\ Len(DStrip(t.int)) <= 2 /\ DVal(DStrip(t.int)) >= 1 /\ DVal(DStrip(t.int)) <= 31
          THEN One(i + 1, [f EXCEPT !.dd = DVal(DStrip(t.int))]) ELSE {}
     [] w = "ordinal" -> IF FixedNum(t, 3, 1, 366) THEN One(i + 1, [f EXCEPT !.ord = DVal(t.int)]) ELSE {}
-    [] w = "isoweek" ->  \* a week, not an instant: the documentation does not say which instant
-         IF FixedNum(t, 2, 1, 53) THEN One(i + 1, [f EXCEPT !.unspec = TRUE]) ELSE {}
+    [] w = "isoweek" ->  \* a week, not a day: the date stays partial
+         IF FixedNum(t, 2, 1, 53) THEN One(i + 1, [f EXCEPT !.wk = DVal(t.int)]) ELSE {}
     [] w = "hour24" ->   \* hour 24 (ISO 8601:2004 allowed 24:00 for the end of a day): an error, or the arithmetic reading
          IF FixedNum(t, 2, 0, 23) THEN One(i + 1, [f EXCEPT !.h12 = DVal(t.int) % 12, !.pm = DVal(t.int) \div 12])
          ELSE IF FixedNum(t, 2, 24, 24) THEN One(i + 1, [f EXCEPT !.h12 = 0, !.pm = 2, !.soft = TRUE])
@@ -205,11 +221,12 @@ Elem(w, toks, i, f) ==
          ELSE IF FixedNum(t, 2, 60, 60) THEN One(i + 1, [f EXCEPT !.mi = 60, !.soft = TRUE])
          ELSE {}
     [] w = "sec" ->
+         \* second 60 (a leap second; the calendar of the property has none): an error, or the arithmetic reading
          IF t.d # "number" \/ Len(t.int) # 2 \/ DVal(t.int) > 60 THEN {}
-         ELSE IF DVal(t.int) = 60 THEN One(i + 1, [f EXCEPT !.unspec = TRUE])             \* leap second
-         ELSE IF ~t.hasfrac THEN One(i + 1, [f EXCEPT !.s = DVal(t.int)])
+         ELSE IF ~t.hasfrac THEN One(i + 1, [f EXCEPT !.s = DVal(t.int), !.soft = f.soft \/ DVal(t.int) = 60])
          ELSE IF t.frac = <<>> THEN One(i + 1, [f EXCEPT !.unspec = TRUE])
-         ELSE One(i + 1, [f EXCEPT !.s = DVal(t.int), !.ns = FracNanos(t.frac), !.nsx = Len(t.frac) > 9])
+         ELSE One(i + 1, [f EXCEPT !.s = DVal(t.int), !.ns = FracNanos(t.frac), !.nsx = Len(t.frac) > 9,
+                                   !.soft = f.soft \/ DVal(t.int) = 60])
     [] w = "meridiem" ->
          IF t.d = "literal" /\ LowerSeq(t.s) = DW_am THEN One(i + 1, [f EXCEPT !.pm = 0])
          ELSE IF t.d = "literal" /\ LowerSeq(t.s) = DW_pm THEN One(i + 1, [f EXCEPT !.pm = 1])
@@ -227,8 +244,8 @@ Elem(w, toks, i, f) ==
               LET sg == IF t.d = "plus" THEN 1 ELSE -1
                   h == DTok(toks, i + 1).int
                   m == DTok(toks, i + 3)
-              IN IF Len(h) = 4 THEN        \* +hhmm
-                    (IF DVal(h) % 100 > 59 THEN One(i + 2, [f EXCEPT !.unspec = TRUE])
+              IN IF Len(h) = 4 THEN        \* +hhmm; minutes of 60 and more are no offset in either spelling
+                    (IF DVal(h) % 100 > 59 THEN {}
                      ELSE One(i + 2, [f EXCEPT !.ok = 1, !.off = sg * ((DVal(h) \div 100) * 3600 + (DVal(h) % 100) * 60)]))
                  ELSE IF DTok(toks, i + 2).d = "colon" /\ FixedNum(m, 2, 0, 59) THEN     \* +h:mm, +hh:mm
                     (IF Len(h) > 3 THEN One(i + 4, [f EXCEPT !.unspec = TRUE])
@@ -253,24 +270,62 @@ FullMatches(pat, toks) == {r.f : r \in {x \in MatchFrom(pat, 1, toks, 1, F0) : x
 
 -----------------------------------------------------------------------------
 (* what a complete reading denotes.  c: "fixed" (inst), "zoned" (inst = the local time as if UTC, tz),
-   "invalid", "silent"; win: 1 when digits beyond nanoseconds were dropped; soft: an error is admissible too *)
-RD(c, inst, win, soft, tz) == [c |-> c, inst |-> inst, win |-> win, soft |-> soft, tz |-> tz]
+   "invalid", "silent", "partial" (pc: the written fields); win: 1 when digits beyond nanoseconds were dropped;
+   soft: an error is admissible too; leap: second 60 was written *)
+\* the written fields of a partial reading: year (hy: written), month, day, ISO week, weekday, the time of day in
+\* seconds (0 when no time was written, as for complete dates) and nanoseconds, the offset (ok: 0 none = UTC,
+\* 1 fixed, 2 named zone), nodate: no date field at all (the "today" patterns)
+PC0 == [hy |-> FALSE, y |-> 0, mo |-> 0, dd |-> 0, wk |-> 0, wd |-> 0, secs |-> 0, ns |-> 0, ok |-> 0, off |-> 0, nodate |-> FALSE]
+RD(c, inst, win, soft, tz) == [c |-> c, inst |-> inst, win |-> win, soft |-> soft, tz |-> tz, leap |-> FALSE, pc |-> PC0]
 RSilent == RD("silent", ZZero, 0, FALSE, <<>>)
 RInvalid == RD("invalid", ZZero, 0, FALSE, <<>>)
+RPartial(f, secs) ==
+  [RD("partial", ZZero, 0, FALSE, f.tz) EXCEPT
+     !.pc = [hy |-> f.hy, y |-> f.y, mo |-> f.mo, dd |-> f.dd, wk |-> f.wk, wd |-> f.wd, secs |-> secs, ns |-> f.ns,
+             ok |-> f.ok, off |-> IF f.ok = 1 THEN f.off ELSE 0,
+             nodate |-> ~f.hy /\ f.mo = 0 /\ f.dd = 0 /\ f.wk = 0 /\ f.wd = 0]]
 
 Classify(f) ==
-  LET hasdate == f.hy /\ ((f.mo > 0 /\ f.dd > 0) \/ f.ord > 0)
+  LET hasdate == f.hy /\ f.wk = 0 /\ ((f.mo > 0 /\ f.dd > 0) \/ f.ord > 0)
       hastime == f.h12 >= 0 /\ f.pm >= 0 /\ f.mi >= 0
       notime == f.h12 < 0 /\ f.pm < 0 /\ f.mi < 0 /\ f.s < 0
-  IN IF f.unspec \/ ~hasdate \/ ~(hastime \/ notime) THEN RSilent          \* relative to `now`, or not documented
+      secs == IF hastime THEN ((f.pm * 12 + f.h12) * 60 + f.mi) * 60 + (IF f.s < 0 THEN 0 ELSE f.s) ELSE 0
+  IN IF f.unspec \/ ~(hastime \/ notime) THEN RSilent                       \* not documented
+     ELSE IF ~hasdate THEN                                                  \* no date, or a part of one
+          (IF f.soft \/ f.nsx \/ f.ord > 0 THEN RSilent
+           ELSE IF f.ok = 1 /\ ~OffsetValid(f.off) THEN RInvalid
+           ELSE RPartial(f, secs))
      ELSE IF (f.ord > 0 /\ f.ord > DaysInYear(f.y)) \/ (f.ord = 0 /\ ~ValidCivil(f.y, f.mo, f.dd)) THEN RInvalid
      ELSE LET days == IF f.ord > 0 THEN DaysFromOrdinal(f.y, f.ord) ELSE DaysFromCivil(f.y, f.mo, f.dd)
-              secs == IF hastime THEN ((f.pm * 12 + f.h12) * 60 + f.mi) * 60 + (IF f.s < 0 THEN 0 ELSE f.s) ELSE 0
               \* a weekday that contradicts the date: an error, or the date (a reader may ignore the weekday)
               wdbad == f.wd # 0 /\ WeekdayOf(days) # f.wd
           IN IF f.ok = 1 /\ ~OffsetValid(f.off) THEN RInvalid
-             ELSE IF f.ok = 2 THEN RD("zoned", InstantOf(days, secs, f.ns), IF f.nsx THEN 1 ELSE 0, TRUE, f.tz)
-             ELSE RD("fixed", InstantOf(days, secs - f.off, f.ns), IF f.nsx THEN 1 ELSE 0, f.soft \/ f.nsx \/ wdbad, <<>>)
+             ELSE IF f.ok = 2 THEN (IF f.s = 60 THEN RSilent
+                                    ELSE RD("zoned", InstantOf(days, secs, f.ns), IF f.nsx THEN 1 ELSE 0, TRUE, f.tz))
+             ELSE [RD("fixed", InstantOf(days, secs - f.off, f.ns), IF f.nsx THEN 1 ELSE 0, f.soft \/ f.nsx \/ wdbad, <<>>)
+                     EXCEPT !.leap = f.s = 60]
+
+\* the clock ck = <<year, month, day, hour, minute, second>> (UTC) of the context
+ClockInstant(ck) == CivilInstant(ck[1], ck[2], ck[3], ck[4], ck[5], ck[6], 0, 0)
+\* the day number of the clock's day as seen at the UTC offset off
+ClockDay(ck, off) == DaysFromCivil(ck[1], ck[2], ck[3]) + ((ck[4] * 3600 + ck[5] * 60 + ck[6] + off) \div 86400)
+\* a time-only literal (pc.nodate, no named zone): that time on the clock's day, at the written offset
+TodayInstant(pc, ck) == InstantOf(ClockDay(ck, pc.off), pc.secs - pc.off, pc.ns)
+
+\* does an instant shown as the fields f = <<year, month, day, hour, minute, second, nanosecond>> at the UTC offset ro
+\* have the written fields pc at the written offset?  (named zone: the reply's own zone is taken for it)
+PCFits(pc, f, ro) ==
+  LET delta == IF pc.ok = 2 THEN 0 ELSE pc.off - ro
+      s0 == (f[4] * 3600) + (f[5] * 60) + f[6] + delta
+      days == DaysFromCivil(f[1], f[2], f[3]) + (s0 \div 86400)
+      civ == CivilFromDays(days)
+  IN /\ (s0 % 86400) = pc.secs /\ f[7] = pc.ns
+     /\ (pc.mo > 0 => civ[2] = pc.mo)
+     /\ (pc.dd > 0 => civ[3] = pc.dd)
+     /\ (pc.wd # 0 => WeekdayOf(days) = pc.wd)
+     \* year-'W'isoweek: that ISO week of the ISO week-numbering year, or of the calendar year, as written
+     /\ (pc.wk > 0 => IsoWeekOf(days) = pc.wk /\ (~pc.hy \/ IsoYearOf(days) = pc.y \/ civ[1] = pc.y))
+     /\ ((pc.wk = 0 /\ pc.hy) => civ[1] = pc.y)
 
 \* all readings of a literal (its date tokens) by the documented patterns
 Readings(toks) == UNION {{Classify(f) : f \in FullMatches(Patterns[p], toks)} : p \in DOMAIN Patterns}
@@ -279,6 +334,7 @@ Readings(toks) == UNION {{Classify(f) : f \in FullMatches(Patterns[p], toks)} : 
 SummaryOf(rs) ==
   [silent |-> \E r \in rs : r.c = "silent",
    valid |-> {r \in rs : r.c \in {"fixed", "zoned"}},
+   partial |-> {r.pc : r \in {x \in rs : x.c = "partial"}},
    ninvalid |-> Cardinality({r \in rs : r.c = "invalid"}),
    nmatch |-> Cardinality(rs)]
 LitSummary(toks) == SummaryOf(Readings(toks))
@@ -292,10 +348,10 @@ ValueOfReading(r, zoff) ==
   ELSE IF r.c = "zoned" /\ r.win = 0 /\ zoff # <<>> /\ OffsetValid(zoff[1]) THEN [t |-> "date", inst |-> ZSub(r.inst, OffsetNanos(zoff[1]))]
   ELSE [t |-> "unknown"]
 ValueOfSummary(s, zoff) ==
-  IF s.silent THEN [t |-> "unknown"]
+  IF s.silent \/ s.partial # {} THEN [t |-> "unknown"]
   ELSE IF s.valid = {} THEN [t |-> "err", c |-> "generic"]
   ELSE IF s.ninvalid = 0 /\ Cardinality(s.valid) = 1 THEN ValueOfReading(CHOOSE r \in s.valid : TRUE, zoff)
   ELSE [t |-> "unknown"]
 LitValue(toks) == ValueOfSummary(LitSummary(toks), <<>>)
-LitIsZoned(s) == ~s.silent /\ s.ninvalid = 0 /\ Cardinality(s.valid) = 1 /\ \A r \in s.valid : r.c = "zoned"
+LitIsZoned(s) == ~s.silent /\ s.partial = {} /\ s.ninvalid = 0 /\ Cardinality(s.valid) = 1 /\ \A r \in s.valid : r.c = "zoned"
 =============================================================================
